@@ -8,7 +8,8 @@ Driver.Sevm — runs the Model.Sevm exploration core on a program (one reply per
    -> ends=<kind@pc,…|-> bounded=<n> depthcut=<0|1> fuelout=<0|1>
   eval <codehex> <nargs> <loop> <depth> <fuel> <oracle> <a0,a1,…> <caller> <origin> <value>     (hex values)
    -> sat=<kind@pc:datahex:storage,…|->   the end states whose path the inputs satisfy, with their data evaluated and
-      their non-zero storage `s<slot>=<value>;` / transient storage `t<slot>=<value>;` (hex, by slot)
+      their non-zero storage `<addr>.s<slot>=<value>;` / transient storage `<addr>.t<slot>=<value>;` (hex, by account
+      and slot), followed by the world's log `L<addr>[<topic>,…]<datahex>;`, oldest first
   code <addrhex> <codehex>  -> ok     registers the code of another account (message-call targets) for what follows
   nocode                    -> ok     forgets them
   (the program under test runs at address 0x1000; calls follow Model.SevmCalls)
@@ -156,8 +157,13 @@ def handle (codes : List (Nat × List Nat)) (line : String) : String :=
         let addrs := (ss.map (·.1)).eraseDups.toArray.qsort (· < ·) |>.toList
         String.join (addrs.map fun a =>
           stoStr s!"{hexN a}.s" (stoOf ss a).storage ++ stoStr s!"{hexN a}.t" (stoOf ss a).transient)
+      -- the world's log, oldest first: `L<addr>[<topic>,…]<data hex>;`
+      let logStr (lg : List LogT) : String :=
+        String.join (lg.map fun l =>
+          s!"L{hexN (l.addr.eval I)}[{",".intercalate (l.topics.map fun t => hexN (t.denote I))}]" ++
+            String.join (l.data.map fun b => hex2 (b.eval I)) ++ ";")
       let names := (sat.map fun e =>
-        s!"{outName e.e}:{String.join (e.e.data.map fun b => hex2 (b.eval I))}:{allSto e.stores}").toArray.qsort (· < ·) |>.toList
+        s!"{outName e.e}:{String.join (e.e.data.map fun b => hex2 (b.eval I))}:{allSto e.stores}{logStr e.logs}").toArray.qsort (· < ·) |>.toList
       s!"sat={if names.isEmpty then "-" else ",".intercalate names}"
     | _, _, _, _, _, _, _, _, _ => "bad-op"
   | ["steps", code, nargs, loop, fuel, orc] =>
